@@ -247,7 +247,7 @@ impl Prop for C10 {
                 Err(e) if e == "WATCHDOG" => {
                     // a hang must reproduce three times in a row to count
                     if attempts >= 3 {
-                        trial.fail("C10/hang", "a side of the session did not finish within 20 s in three consecutive runs of this case".to_string());
+                        trial.fail("C10/hang", "a side of the session (or, with a crowd of authors, filling a store) did not finish within 20 s (40 s with a crowd) in three consecutive runs of this case".to_string());
                         o = trial;
                         break;
                     }
@@ -877,7 +877,7 @@ fn faulty(ctx: &mut Ctx, a: &[Small], b: &[Small], fault: Option<(u8, bool, u8)>
     };
     let crowd_on_a = crowd.map(|c| c.1).unwrap_or(false);
     // a crowd takes longer (thousands of signature checks), and a store that stops answering while it is filled is a hang too
-    let watchdog = if crowd.is_some() { WATCHDOG * 4 } else { WATCHDOG };
+    let watchdog = if crowd.is_some() { WATCHDOG * 2 } else { WATCHDOG };
     // per-side clocks (initiator, acceptor): the proxy switches the hooked clock to the receiving side's value before
     // every frame it forwards (lock-step protocol: exactly one side is processing at any time)
     const TEN_MIN: u64 = 600_000_000;
@@ -889,19 +889,25 @@ fn faulty(ctx: &mut Ctx, a: &[Small], b: &[Small], fault: Option<(u8, bool, u8)>
     let pk_a = iroh::SecretKey::from_bytes(&[0xA1u8; 32]).public();
     let pk_b = iroh::SecretKey::from_bytes(&[0xB2u8; 32]).public();
     ctx.rt.block_on(async {
-        let fill_both = async {
-            let ha = make_handle(a).await?;
-            let hb = make_handle(b).await?;
+        let ha = make_handle(a).await?;
+        let hb = make_handle(b).await?;
+        // the last handle to go joins the actor thread: when a store actor has stopped answering, that join never returns,
+        // so on a watchdog expiry one clone of each handle is leaked on purpose
+        let guard = (ha.clone(), hb.clone());
+        let fill_crowd = async {
             for e in crowd_entries {
                 let h = if crowd_on_a { &ha } else { &hb };
                 es(h.insert_remote(ns, e.clone(), [9u8; 32], ContentStatus::Missing).await)?;
             }
-            Ok::<_, String>((ha, hb))
+            Ok::<_, String>(())
         };
-        let (ha, hb) = match tokio::time::timeout(watchdog, fill_both).await {
-            Err(_) => return Err("WATCHDOG".to_string()),
+        match tokio::time::timeout(watchdog, fill_crowd).await {
+            Err(_) => {
+                std::mem::forget(guard);
+                return Err("WATCHDOG".to_string());
+            }
             Ok(x) => x?,
-        };
+        }
         let start_a = act::dump(&ha, ns).await?;
         let start_b = act::dump(&hb, ns).await?;
         let (a_io, pa_io) = tokio::io::duplex(1 << 20);
@@ -1014,9 +1020,13 @@ fn faulty(ctx: &mut Ctx, a: &[Small], b: &[Small], fault: Option<(u8, bool, u8)>
         let joined = tokio::time::timeout(watchdog, async { tokio::join!(alice, bob, proxy) }).await;
         verif::set_clock(Some(T0 + 3));
         let (ra, (rb, _bob_out_always_available, contract), frames) = match joined {
-            Err(_) => return Err("WATCHDOG".to_string()),
+            Err(_) => {
+                std::mem::forget(guard);
+                return Err("WATCHDOG".to_string());
+            }
             Ok(x) => x,
         };
+        drop(guard);
         if let Some(v) = contract {
             o.fail("C10/accept-error-does-not-name-the-session", v);
         }
